@@ -28,7 +28,7 @@ ASSUMPTIONS = ["threshold and AUC equivalence are evaluated on every case, not p
 
 
 def n_cases(tier):
-    return 300 if tier == "quick" else 6000
+    return 600 if tier == "quick" else 6000
 
 
 def _gen_big(rng):
@@ -124,6 +124,30 @@ def build(inp) -> Case:
                 if abs(t0 - t1) > _ulps(t1) + 1e-12 * scale:
                     pre.append(Issue("PROPFAIL", "threshold", f"threshold_at_{metric}({r}): easy {t0} vs materialised {t1} "
                                      f"(k={k}, m={m}, cfg={sc},{ec})", f"thr/{metric}/easy"))
+    # the same targets as ONE float64 array that the caller keeps: first the object with virtual easy samples, then the
+    # materialised one (a target array rescaled in place by the first call reaches the second one changed)
+    rs_arr = np.array(inp["rs"], dtype=float)
+    for metric in gen.METRICS:
+        rel = pos if metric in ("tpr", "fnr") else neg if metric in ("tnr", "fpr") else allv
+        rmin, rmax = min(rel), max(rel)
+        a0 = common.call(getattr(e, "threshold_at_" + metric), rs_arr)
+        changed = not np.array_equal(rs_arr, np.array(inp["rs"], dtype=float))
+        a1 = common.call(getattr(mt, "threshold_at_" + metric), rs_arr)
+        if a0[0] == "exc" or a1[0] == "exc":
+            continue
+        v0, v1 = np.asarray(a0[1], dtype=float).reshape(-1), np.asarray(a1[1], dtype=float).reshape(-1)
+        ref1 = [common.call(getattr(mt, "threshold_at_" + metric), r) for r in inp["rs"]]
+        for j_, r in enumerate(inp["rs"]):
+            if ref1[j_][0] != "ok" or len(v0) != len(inp["rs"]) or len(v1) != len(inp["rs"]):
+                continue
+            t1s = float(ref1[j_][1])
+            if rmin <= t1s <= rmax and (abs(v0[j_] - v1[j_]) > _ulps(t1s) + 1e-12 * scale or changed):
+                pre.append(Issue("PROPFAIL", "threshold", f"threshold_at_{metric}(targets) with the targets {inp['rs']} in one array "
+                                 f"used for both objects: easy {v0.tolist()} vs materialised {v1.tolist()}; the array "
+                                 f"{'was changed to ' + str(rs_arr.tolist()) if changed else 'is unchanged'} (k={k}, m={m}, cfg={sc},{ec})",
+                                 f"thr/{metric}/easy-array"))
+                break
+        rs_arr = np.array(inp["rs"], dtype=float)
     inp["_evals"] = 2 * len(ts) + 5 + nthr
     tags = [inp["stream"], f"cfg={sc},{ec}", f"k={'0' if k == 0 else '+'},m={'0' if m == 0 else '+'}"]
 
